@@ -243,6 +243,8 @@ def run(ctx, res):
     from rules import c02_towers
     c02_towers.check(res, facts)
     check_cycexp(res, facts)
+    from rules import lincomb
+    lincomb.check_field_ops(res, facts, ("QuadExtField<", "CubicExtField<"), 56)
     return {
         "level": "proof",
         "explanation": "Each obligation is a polynomial (or rational-function) identity over Z in the kernel's input symbols: the MIR of the kernel is evaluated symbolically path by path (configuration arms split, data branches forked with their assumption) and the result compared with schoolbook arithmetic modulo X^k - beta written independently; equality is decided by expansion to normal form. Holds for all inputs over every commutative ring, hence for every shipped base field. Frobenius = x^(p^k) as a value statement, cyclotomic fast paths vs generic ones on the cyclotomic subgroup, legendre/sqrt are NOT decided here.",
